@@ -634,7 +634,95 @@ func runC11(ctx *common.Ctx) error {
 	both("script:long-number", []byte("a FETCH "+strings.Repeat("9", 20000)+" ALL\r\nb NOOP\r\n"), func(s *stream) { s.Lined = true; s.Expect = []expect{e("a", "BAD"), e("b", "OK")}; s.Model = false })
 	both("script:long-atom", []byte("a LOGIN "+strings.Repeat("x", 60000)+" y\r\nb NOOP\r\n"), func(s *stream) { s.Lined = true; s.Expect = []expect{e("a", ""), e("b", "OK")}; s.Model = false })
 	both("script:long-quoted", []byte("a LOGIN \""+strings.Repeat("\\\"", 30000)+"\" y\r\nb NOOP\r\n"), func(s *stream) { s.Lined = true; s.Expect = []expect{e("a", ""), e("b", "OK")}; s.Model = false })
-	both("script:long-tag", []byte(strings.Repeat("t", 60000)+" NOOP\r\nb NOOP\r\n"), func(s *stream) { s.Lined = true; s.Expect = []expect{e(strings.Repeat("t", 60000), "OK"), e("b", "OK")}; s.Model = false })
+	both("script:long-tag", []byte(strings.Repeat("t", 60000)+" NOOP\r\nb NOOP\r\n"), func(s *stream) {
+		s.Lined = true
+		s.Expect = []expect{e(strings.Repeat("t", 60000), "OK"), e("b", "OK")}
+		s.Model = false
+	})
+
+	// ---------------------------------------------------------------- 1b. SEARCH charsets (after SELECT: the handler decodes)
+	charsets := []string{"UTF-8", "US-ASCII", "utf-8", "ISO-8859-1", "windows-1252", "ISO-2022-JP", "KOI8-R", "GB18030", "UTF-16",
+		// known to the IANA index but not supported by x/text (Encoding returns nil without an error)
+		"ISO-2022-CN", "ISO-2022-CN-EXT", "ISO-2022-KR", "csISO2022KR", "UTF-7", "UNICODE-1-1-UTF-7", "UTF-32", "ISO-10646-UCS-2",
+		"BOCU-1", "SCSU", "CESU-8", "EBCDIC-US", "hp-roman8", "DEC-MCS", "Adobe-Symbol-Encoding",
+		// unknown / garbage
+		"utf8", "bogus", "X", "\"\"", "\"UTF 8\"", "{3}\r\n\xff\xfe\xfd", "{5}\r\nUTF-8", strings.Repeat("U", 300), "UTF-8\x00", "[]", "%*"}
+	for i, cs := range charsets {
+		key := []string{"ALL", "TEXT \"x\"", "SUBJECT {3}\r\n\x1b$)", "OR BODY caf\xc3\xa9 NOT FROM \"\xe9\""}[i%4]
+		for _, k := range []string{"ALL", key} {
+			data := []byte("s SELECT INBOX\r\nc SEARCH CHARSET " + cs + " " + k + "\r\nu UID SEARCH CHARSET " + cs + " " + k + "\r\nz NOOP\r\n")
+			want := []expect{e("s", "OK"), e("c", ""), e("u", ""), e("z", "OK")}
+			run(stream{Name: "script:search-charset", Login: true, Model: true, Data: data, Lined: true, Expect: want})
+			if k == key {
+				break
+			}
+		}
+	}
+
+	// ---------------------------------------------------------------- 1c. nothing may outlive a closed connection
+	// Bytes pipelined behind a session-ending line (LOGOUT, the 20th malformed line): the reader goroutine has parsed the
+	// next command when the serve loop returns and must notice that nobody will take it. N short-lived connections must
+	// leave the number of command reader goroutines where it was (the watcher's one).
+	{
+		var twenty bytes.Buffer
+		for i := 0; i < 20; i++ {
+			fmt.Fprintf(&twenty, "e%d XYZZY\r\n", i)
+		}
+		twenty.WriteString("z NOOP\r\ny NOOP\r\n")
+		leakStreams := []struct {
+			name  string
+			login bool
+			data  []byte
+		}{
+			{"logout-then-more", false, []byte("x LOGOUT\r\ny NOOP\r\n")},
+			{"logout-then-more", true, []byte("x LOGOUT\r\ny NOOP\r\nz NOOP\r\n")},
+			{"twenty-errors-then-more", false, twenty.Bytes()},
+			{"eof-mid-command", true, []byte("x NOOP\r\ny LOGIN \"a")},
+		}
+		const nConn = 25
+		for _, ls := range leakStreams {
+			pre := "pre-login"
+			if ls.login {
+				pre = "post-login"
+			}
+			res.Evaluations++
+			res.Count("category:leak")
+			ctx.Current(fmt.Sprintf("LEAK %s x%d stream=%s", pre, nConn, clip(ls.data, 300)), nil)
+			base := c.readersSettle(1, 5*time.Second)
+			if base < 0 {
+				res.Infra("the child does not answer STATS")
+				break
+			}
+			bad := ""
+			for i := 0; i < nConn && bad == ""; i++ {
+				o := runStream(c, ls.login, ls.data)
+				if o.Crash || o.Spin || o.Hang || o.ConnErr != "" {
+					bad = "stream failed: " + compStr(o.Completions)
+				}
+			}
+			if bad != "" {
+				// the per-stream oracles report this shape elsewhere; here only the leak is judged
+				res.Notes = append(res.Notes, "leak test "+ls.name+": "+bad)
+				if !c.alive() {
+					if err := restart(); err != nil {
+						return err
+					}
+				}
+				continue
+			}
+			after := c.readersSettle(base, 8*time.Second)
+			g, _ := c.stats()
+			if after-base >= nConn/2 {
+				res.Fail(fmt.Sprintf("LEAK %s stream=%s", pre, clip(ls.data, 300)),
+					fmt.Sprintf("%d connections that sent these bytes in one write and were closed by the server left %d command reader goroutines behind (before: %d, after: %d, goroutines now: %d): session, buffers and connection are never released", nConn, after-base, base, after, g),
+					caseRec{Name: "leak:" + ls.name, Login: ls.login, Stream: fmt.Sprintf("%q", ls.data)})
+				if err := restart(); err != nil {
+					return err
+				}
+			}
+			res.Nontrivial("leak " + pre + " " + string(ls.data))
+		}
+	}
 
 	// ---------------------------------------------------------------- 2. truncations of valid commands at every byte
 	valid := []string{
@@ -675,6 +763,12 @@ func runC11(ctx *common.Ctx) error {
 	for i := 0; i < nGarb; i++ {
 		login := rng.Chance(0.5)
 		run(stream{Name: "garbage:random", Login: login, Data: genGarbage(rng), Model: true})
+	}
+	// no command reader goroutine may be left over from the ~900 closed connections of this run (the watcher has one)
+	if c != nil && c.alive() {
+		if left := c.readersSettle(1, 8*time.Second); left > 3 {
+			res.Fail(fmt.Sprintf("LEAK (end of run) %d command reader goroutines", left), "command reader goroutines outlive their connections", nil)
+		}
 	}
 	// final check for goroutines that spin after their connection is gone
 	if c != nil && c.alive() && c.busy(300*time.Millisecond) && c.busy(time.Second) {
